@@ -154,6 +154,12 @@ impl TryFrom<&str> for OnionV3Address {
 			}
 		};
 
+		// (56 characters that end in base32 padding decode to fewer bytes)
+		if address.len() < 32 {
+			return Err(OnionV3Error::AddressDecoding(
+				"(Interpreted as Base32 String) Input address is too short".to_owned(),
+			));
+		}
 		let mut retval = OnionV3Address([0; 32]);
 		retval.0.copy_from_slice(&address[0..32]);
 
